@@ -148,7 +148,13 @@ fn gen_case(seed: u64, idx: usize, tier: &str) -> Case {
         txid = [0u8; 32];
         txid[31] = 1;
     }
-    let vout = *rng.pick(&[0u32, 0, 1, 2, 7, 255, 256, 65535]);
+    let mut vout = *rng.pick(&[0u32, 0, 1, 2, 7, 255, 256, 65535]);
+    // an output index that does not fit LDK's 16-bit channel parameter: the repaired
+    // setup_channel refuses it; before the repair the index was truncated and the signatures
+    // were for a transaction spending another outpoint (C04_old_vout_truncation_refuted)
+    if idx % 16 == 5 {
+        vout = *rng.pick(&[65536u32, 65537, 0x0001_0000 + 7, 0x8000_0001]);
+    }
     let hdelay = *rng.pick(&[4u16, 5, 15, 16, 17, 127, 128, 129, 144, 255, 256, 1008, 2016]);
     let cdelay = *rng.pick(&[4u16, 6, 144, 2016]);
     let cp_secrets = [secret(&mut rng), secret(&mut rng), secret(&mut rng), secret(&mut rng), secret(&mut rng)];
